@@ -277,7 +277,9 @@ fn play(step: &str, mut s: std::net::TcpStream) {
             let bytes = parse_hex_bytes(parts.get(1).copied().unwrap_or(""));
             let _ = s.write_all(&bytes);
             let _ = s.flush();
-            std::thread::sleep(std::time::Duration::from_millis(300));   // let the reader drain the socket
+            // let the reader drain the socket; an optional fourth field keeps the connection up that many ms
+            let hold: u64 = parts.get(3).and_then(|x| x.parse().ok()).unwrap_or(300);
+            std::thread::sleep(std::time::Duration::from_millis(hold.max(300)));
             if parts.get(2).copied() == Some("reset") { reset_close(s); } else { drop(s); }
         }
         _ => { drop(s); }
